@@ -7,11 +7,16 @@
 set -e
 export GOFLAGS=-mod=mod GOPROXY=off GOSUMDB=off GOTOOLCHAIN=local
 ID=$1; DEST=$2; shift 2
-SRC=/tmp/mut/$ID
+SRC=${MUT_BASE:-/tmp/mut}/$ID
 W=/tmp/scratch/seedchk-$DEST
 rm -rf "$W"; git -C /repo worktree add -q --detach "$W" HEAD
 LOG=/tmp/scratch/seedchk-$DEST.log; : > "$LOG"
-DEMO=$(git -C "$SRC/wt" status --porcelain | grep '^??' | awk '{print $2}' | grep '_test.go$' | head -1)
+if [ -n "$DEMO_PATH" ]; then
+  # the agent's worktree is gone: the demonstration is $SRC/demo_test.go, to be placed at $DEMO_PATH
+  DEMO=$DEMO_PATH; mkdir -p "$SRC/wt/$(dirname $DEMO)"; cp "$SRC/demo_test.go" "$SRC/wt/$DEMO"
+else
+  DEMO=$(git -C "$SRC/wt" status --porcelain | grep '^??' | awk '{print $2}' | grep '_test.go$' | head -1)
+fi
 PKGS=$(grep '^+++ b/' "$SRC/patch.diff" | sed 's#^+++ b/##' | xargs -n1 dirname | sort -u | sed 's#^#./#')
 echo "demo test: $DEMO ; touched packages: $PKGS" | tee -a "$LOG"
 ( cd "$W" && patch -s -p1 < "$SRC/patch.diff" && go build ./... ) >> "$LOG" 2>&1 || { echo "BUILD FAILED"; exit 1; }
